@@ -571,6 +571,45 @@ func (g *Graph) EdgeFacts(e *GEdge) []Fact {
 	return out
 }
 
+// EdgeDisjuncts returns atoms A1..An such that taking edge e means A1 || ... || An (the dual of EdgeFacts, whose
+// facts all hold): the leaves of an `||` tree on its true edge, of an `&&` tree (negated) on its false edge; a
+// single atom otherwise; nil for unconditional or opaque edges. Locals defined just before the test are substituted
+// like in EdgeFacts (the substituted atom replaces the original one here).
+func (g *Graph) EdgeDisjuncts(e *GEdge) []Fact {
+	if e.Cond == nil {
+		return nil
+	}
+	if e.Tag != nil {
+		return []Fact{{X: e.Tag, Y: e.Cond, Pos: e.Taken}}
+	}
+	var out []Fact
+	var walk func(x ast.Expr, want bool)
+	walk = func(x ast.Expr, want bool) {
+		x = ast.Unparen(x)
+		switch t := x.(type) {
+		case *ast.UnaryExpr:
+			if t.Op == token.NOT {
+				walk(t.X, !want)
+				return
+			}
+		case *ast.BinaryExpr:
+			if (t.Op == token.LOR && want) || (t.Op == token.LAND && !want) {
+				walk(t.X, want)
+				walk(t.Y, want)
+				return
+			}
+		}
+		out = append(out, Fact{X: x, Pos: want})
+	}
+	walk(e.Cond, e.Taken)
+	if defs := g.adjacentDefs(e.From); len(defs) > 0 {
+		for i := range out {
+			out[i].X = substIdents(g.Info, out[i].X, defs)
+		}
+	}
+	return out
+}
+
 // adjacentDefs returns the locals defined by the statements that immediately precede the test node n
 // (`x := E` / `if x := E; cond(x)`), with their defining expressions: between such a definition and the test nothing
 // else runs, so a fact about x is a fact about E. Only variables assigned exactly once are taken; the walk stops at
@@ -582,12 +621,17 @@ func (g *Graph) adjacentDefs(n *GNode) map[types.Object]ast.Expr {
 	}
 	var out map[types.Object]ast.Expr
 	cur := n
-	for steps := 0; steps < 3; {
+	for steps, hops := 0, 0; steps < 3 && hops < 12; hops++ {
 		if len(cur.Pred) != 1 {
 			break
 		}
 		prev := cur.Pred[0].From
 		if prev.Node == nil {
+			cur = prev
+			continue
+		}
+		if ex, isExpr := prev.Node.(ast.Expr); isExpr && !hasEffectfulCall(g.Info, ex) {
+			// an earlier operand of the same short-circuit condition (`x == a || x == b`): nothing changes there
 			cur = prev
 			continue
 		}
